@@ -156,11 +156,12 @@ ExtractCodes(e) ==
   \cup (IF e.panic = 1 THEN {} ELSE
         LET T == e.T
             reach == TClosure(T, {e.root})
-            need == {t \in reach : T[t].kind \in {"struct", "slice"}}
+            dyn == {e.dyn[i] : i \in 1..Len(e.dyn)}           \* types the witness holds, behind interfaces too
+            need == {t \in reach \cup TClosure(T, dyn) : T[t].kind \in {"struct", "slice"}}
         IN UNION {
              LET n == Lookup(e.nm, e.names[t]) IN
              IF ~n[1] THEN {<<"C16.closed", t>>}                       \* no wire name for a reachable type
-             ELSE (IF T[t].kind = "struct" /\ e.customs[t] # <<>> /\ n[2] # e.customs[t] THEN {<<"C16.custom", t>>} ELSE {})
+             ELSE (IF e.customs[t] # <<>> /\ n[2] # e.customs[t] THEN {<<"C16.custom", t>>} ELSE {})
                   \cup (LET m == Lookup(e.tm, n[2]) IN
                         IF ~m[1] THEN {<<"C16.closed", t>>}             \* wire name not in the type map
                         ELSE IF ~TSame(T, m[2], t) THEN {<<"C16.consistent", t>>} ELSE {})
